@@ -29,9 +29,9 @@ CHECKS = {
  "C08": dict(level="exploration", tech="state-snapshot assertions around injected failing updates (error / panic / schema / size limit at every prefix of a callback) + twin document that never saw the failure + clone==root assertion after every step",
    text="Histories of updates, remote packs, GC, snapshots, undo/redo on one Document; every prefix of chosen callbacks is re-run failing in four ways and Marshal, Root(), pending pack, undo depth, CanUndo/CanRedo, GarbageLen, AllPresences must equal their pre-call values; the next successful update must equal the twin's; Root()==Marshal() after every step.",
    note="single-goroutine use; twin divergence is only attributed to a failure injected in the same step."),
- "C09": dict(level="exploration", tech="differential channels monitor: every change delivered to followers in-memory / through the protobuf wire codec / twice through it / through the storage codec / into a follower re-created from snapshot bytes, compared after every delivery (Marshal, GarbageLen, structural digest of all tickets and links); plus mutation fuzzing of every decoder under recover + watchdog + allocation meter",
+ "C09": dict(level="exploration", tech="differential channels monitor: every change delivered to followers in-memory / through the protobuf wire codec / twice through it / through the storage codec / into a follower re-created from snapshot bytes, compared after every delivery (Marshal, GarbageLen, structural digest of all tickets and links); plus mutation fuzzing of every decoder under recover + watchdog + allocation meter; plus mutated change packs posted to the live server by an attached hostile client (every request answered, other documents unaffected)",
    text="Two in-process authors (C01 alphabet + undo/redo, dedup counters, styles, moves, tree edits) exchange changes; five followers receive each change through different encode/decode channels and must stay identical in content, GarbageLen and a structural digest (createdAt/removedAt/position registers/text node ids and insPrev links/tree ids, insPrev/insNext, merge provenance/attribute nodes with tombstone flag); snapshot forks are re-forked to check a second generation; version vectors round-trip. Hostile family: packs and snapshots harvested from those histories are mutated (bit flips, truncation at every length, splices, structural protobuf mutations) and fed to 12 decoders; oracle = no panic, returns within a watchdog, bounded allocation.",
-   note="in-process (no RPC); raw movedAt of elements is not compared (only the per-key holder anchor, see DESIGN.md); four recorded findings fenced with pinned witnesses (F-DEDUP-HLL-OPS, F-GC-ATTR-ID, F-GC-RESTORE-UNREGISTERED, F-RESTORE-TWICE)."),
+   note="in-process (no RPC); raw movedAt of elements is not compared (only the per-key holder anchor, see DESIGN.md); five recorded findings (F-DEDUP-HLL-OPS, F-GC-ATTR-ID, F-GC-RESTORE-UNREGISTERED, F-RESTORE-TWICE with pinned witnesses; F-HOSTILE-CHANGE-STORED by ident)."),
  "C10": dict(level="exploration", tech="runtime monitoring: compaction scenario oracle over generated histories through the real path documents.CompactDocument -> Cluster RPC -> packs.Compact (refusal while attached leaves log/epoch/serverSeq untouched; after success every stale-client flavour is exercised; canonical content of fresh attachers == content before compaction; epoch +1 per success)",
    text="Each generated history (C01 alphabet, GC on, snapshot threshold 0 or 5) is brought to quiescence and followed by: normal compaction while attached (must answer compacted=false and change nothing), forced compaction / compaction after detach (must succeed), then stale sync with and without unsent edits, push-only stale sync, stale detach/remove, fresh attach, new edits, second fresh attach, second compaction. Oracle: fresh attach reads the pre-compaction content, stale syncs fail with an epoch mismatch and add no row, stale detach succeeds, epoch grows by exactly one, packs.Compact never errors on a reachable document.",
    note="memdb, single node (Cluster RPC loops back); dedup counters excluded from compaction documents (F-DEDUP-HLL-OPS recorded with pinned witness)."),
